@@ -13,11 +13,6 @@ type operatorHandler func(d *dataTreeNavigator, context Context, expressionNode 
 type compoundCalculation func(lhs *ExpressionNode, rhs *ExpressionNode) *ExpressionNode
 
 func compoundAssignFunction(d *dataTreeNavigator, context Context, expressionNode *ExpressionNode, calculation compoundCalculation) (Context, error) {
-	lhs, err := d.GetMatchingNodes(context, expressionNode.LHS)
-	if err != nil {
-		return Context{}, err
-	}
-
 	// tricky logic when we are running *= with flags.
 	// we have an op like: .a *=nc .b
 	// which should roughly translate to .a =c .a *nc .b
@@ -34,18 +29,29 @@ func compoundAssignFunction(d *dataTreeNavigator, context Context, expressionNod
 
 	assignmentOp := &Operation{OperationType: assignOpType, Preferences: prefs}
 
-	for el := lhs.MatchingNodes.Front(); el != nil; el = el.Next() {
-		candidate := el.Value.(*CandidateNode)
-		clone := candidate.Copy()
-		valueCopyExp := &ExpressionNode{Operation: &Operation{OperationType: referenceOpType, CandidateNode: clone}}
+	// both sides are relative to each node of the context (as they are for '='):
+	// '.[] | (.a += .b)' adds every element's own .b
+	for contextEl := context.MatchingNodes.Front(); contextEl != nil; contextEl = contextEl.Next() {
+		nodeContext := context.SingleChildContext(contextEl.Value.(*CandidateNode))
 
-		valueExpression := &ExpressionNode{Operation: &Operation{OperationType: referenceOpType, CandidateNode: candidate}}
-
-		assignmentOpNode := &ExpressionNode{Operation: assignmentOp, LHS: valueExpression, RHS: calculation(valueCopyExp, expressionNode.RHS)}
-
-		_, err = d.GetMatchingNodes(context, assignmentOpNode)
+		lhs, err := d.GetMatchingNodes(nodeContext, expressionNode.LHS)
 		if err != nil {
 			return Context{}, err
+		}
+
+		for el := lhs.MatchingNodes.Front(); el != nil; el = el.Next() {
+			candidate := el.Value.(*CandidateNode)
+			clone := candidate.Copy()
+			valueCopyExp := &ExpressionNode{Operation: &Operation{OperationType: referenceOpType, CandidateNode: clone}}
+
+			valueExpression := &ExpressionNode{Operation: &Operation{OperationType: referenceOpType, CandidateNode: candidate}}
+
+			assignmentOpNode := &ExpressionNode{Operation: assignmentOp, LHS: valueExpression, RHS: calculation(valueCopyExp, expressionNode.RHS)}
+
+			_, err = d.GetMatchingNodes(nodeContext, assignmentOpNode)
+			if err != nil {
+				return Context{}, err
+			}
 		}
 	}
 	return context, nil
